@@ -39,7 +39,7 @@ def run(ctx):
         f_sim = ex.submit(gen_behaviours, ctx, "Sim_DocUpdate.cfg", nsim // 2, "Sim")
         f_sim2 = ex.submit(gen_behaviours, ctx, "Sim_DocUpdate_burst.cfg", nsim - nsim // 2, "SimBurst")
         mc, beh_all, beh_sim = f_mc.result(), f_beh.result(), f_sim.result() + f_sim2.result()
-        f_mca.result()
+        final_coverage(ctx, f_mca.result(), ignore=(), key="action_coverage_clock_ahead")   # Restamp is only enabled in the ClockAhead model
         beh_ahead = select_ahead(ctx, f_beha.result(), other=40 if quick else 400)
     ctx.cov["behaviour_action_mix"] = action_mix(beh_sim)
     ctx.cov["exhaustive"] = True
@@ -68,7 +68,7 @@ def run(ctx):
 
 def model_check_tagged(ctx, cfg, tag):
     """vlib.core.model_check with its own staging directory (runs concurrently with the main exhaustive check)."""
-    r = tlc(ctx, SPEC, "MC_DocUpdate", cfg, timeout=5400, tag=tag)
+    r = tlc(ctx, SPEC, "MC_DocUpdate", cfg, timeout=5400, tag=tag, coverage=not ctx.quick())
     if r.inv_violated:
         raise Inconclusive("model counterexample in MC_DocUpdate/%s: %s violated (candidate only)\n%s" % (
             cfg, r.inv_violated, "\n".join("\n".join(st["_txt"]) for st in r.error_trace[-2:])))
@@ -122,7 +122,7 @@ def gen_behaviours(ctx, cfg, num, tag):
     return res
 
 
-def final_coverage(ctx, mc):
+def final_coverage(ctx, mc, ignore=("Restamp",), key="action_coverage"):
     """vacuity guard on the LAST coverage block (core scans the periodic blocks too, where late actions are still 0)."""
     import re
     last = {}
@@ -132,8 +132,8 @@ def final_coverage(ctx, mc):
             last[m.group(1)] = int(m.group(3))
     if last:
         ctx.notes[:] = [n for n in ctx.notes if not n.startswith("zero-coverage actions in MC_DocUpdate")]
-        ctx.cov["action_coverage"] = last
-        zero = sorted(a for a, n in last.items() if n == 0 and a != "Init")
+        ctx.cov[key] = last
+        zero = sorted(a for a, n in last.items() if n == 0 and a != "Init" and a not in ignore)
         if zero:
             raise Inconclusive("actions never taken in the exhaustive run: %s" % zero)
 
